@@ -599,6 +599,27 @@ pub open spec fn fields_are(fs: Seq<Field>, ts: Seq<Tok>, p0: int) -> bool {
     forall|j: int| 0 <= j < fs.len() ==> field_is(#[trigger] fs[j], ts, nth_start(ts, p0, j))
 }
 
+/// one round of the field loop: k fields parsed, the cursor at field k (= p) of a well-formed rest; f is field k.
+/// Then k + 1 fields are parsed, field k + 1 starts behind field k, and either the `)` stands there and all fields are
+/// parsed, or a well-formed rest with one field less stands there.
+proof fn lemma_list_step(ts: Seq<Tok>, p0: int, fs: Seq<Field>, f: Field, p: int)
+    requires
+        p == nth_start(ts, p0, fs.len() as int), list_ok(ts, p), fs.len() + count(ts, p) == count(ts, p0),
+        fields_are(fs, ts, p0), field_is(f, ts, p),
+    ensures
+        [[L: lemma_list_step/one_more_field_parsed_and_the_next_field_or_the_closing_paren_follows]]
+        fields_are(fs.push(f), ts, p0),
+        nth_start(ts, p0, fs.len() as int + 1) == p + grp_width(ts, p),
+        ts[p + grp_width(ts, p)].lit() == Lit::RParen ==> fs.len() + 1 == count(ts, p0),
+        ts[p + grp_width(ts, p)].lit() != Lit::RParen ==> list_ok(ts, p + grp_width(ts, p))
+            && fs.len() + 1 + count(ts, p + grp_width(ts, p)) == count(ts, p0),
+{
+    let fs2 = fs.push(f);
+    assert forall|j: int| 0 <= j < fs2.len() implies field_is(#[trigger] fs2[j], ts, nth_start(ts, p0, j)) by {
+        if j < fs.len() { assert(fs2[j] == fs[j]); } else { assert(fs2[j] == f); }
+    }
+}
+
 // ---- declaration := ("table"|"simple"|"object") name COMMENT "(" field+ ")" ----------------------------------------
 /// where the comment of the declaration at p stands; `(` is next, the fields start behind it
 pub open spec fn d_comment(ts: Seq<Tok>, p: int) -> int { p + 1 + name_w(ts, p + 1) }
@@ -1022,6 +1043,15 @@ impl FieldType {
             let ghost p_sep = parser.pos();
 //@at /let comment = / before optional
             assert(parser.pos() > p_sep); [[L: loop/separator_consumed]]
+//@at /let comment = / after optional
+            [[L: loop/step/the_field_is_field_k_and_the_cursor_is_behind_it]]
+            assert(gh ==> parser.ready() && parser.at() == gp + grp_width(gts, gp)
+                && field_is(Field { field_type, field_size, name: field_name, index_type, auto, comment }, gts, gp));
+            proof {
+                if gh {
+                    lemma_list_step(gts, old(parser).at(), fields@, Field { field_type, field_size, name: field_name, index_type, auto, comment }, gp);
+                }
+            }
 //@end
 
 //@extract fn bigtools/src/bed/autosql.rs parse_declaration
